@@ -4,7 +4,7 @@
    the surface syntax of an abstract program under a style number, and
    Meaning.meaning what the program denotes, computed without gmars. *)
 From GM Require Import Base Text Token Lexer Scanner ExprSpec ExprEval Parser Compile Sim Prog Meaning Render AsmSpec
-     C03Proof C03Lexer C06Proof C09Proof C09GenCompile C09GenLex C03Equ C03Parse C03Compile C03Labels C03EquCompile C03EquLabels.
+     C03Proof C03Lexer C06Proof C09Proof C09GenCompile C09GenLex C08Proof C08Block C08Scan C08Passes C03Equ C03Parse C03Compile C03Labels C03EquCompile C03EquLabels.
 From Coq Require Import Lia.
 Open Scope Z_scope.
 
@@ -326,7 +326,25 @@ Proof.
 Qed.
 End C03EquExample.
 
-(* missing from C03_full_statement: FOR blocks (C08: the pass driver computes the token-level unrolling), ;assert lines
-   (C07), and EQU definitions together with an END line.  These, and the composition of all of them, are decided on every run by the
+(* ... AND WITH FOR BLOCKS: a text whose tokens unroll, block by block (C08Passes.unrolls: k times the first block of
+   the stream is written out, with its count taken from the EQU symbols in front of it and the predefined constants),
+   to such a document is assembled to what the unrolled program denotes - C03 and C08 together, on the model *)
+Theorem C03_programs_with_for_partial :
+  forall cfg spell org (its : list Prog.item) es lead nm au code start inp toks k rkN,
+    validate cfg = true ->
+    spell_ok spell (flat_map il_labels (instrs its) ++ map fst (equs its)) ->
+    renders_doc2 spell org its es -> shape2_ok es -> Forall (fun xk => (1 <= snd xk)%nat) es ->
+    ranked spell (equs its) rkN ->
+    bodies_known cfg its ->
+    meaning (mconf_of cfg) (mkProg its org None nm au []) = MOk code start ->
+    lex_ascii inp = Some toks -> counts_modelled toks None = true ->
+    unrolls cfg k toks (ldoc_toks lead es) -> (k <= max_for_passes)%nat ->
+    compile_warrior cfg inp = COk code start (dmeta (mkPM [] [] []) es).
+Proof. exact for_program_tokens. Qed.
+Print Assumptions C03_programs_with_for_partial.
+
+(* missing from C03_full_statement: that the token-level relation `unrolls` holds between the rendering of every abstract
+   program with FOR blocks and the rendering of its Render.unroll (C08), ;assert lines (C07), and EQU definitions together
+   with an END line.  These, and the composition of all of them, are decided on every run by the
    two-stage correspondence: generated abstract programs are rendered under several styles by the extracted
    Render, assembled by gmars and by the extracted model, and compared with the extracted Meaning. *)
